@@ -12,6 +12,14 @@ theorem toksMatch_nil_left {tps : List TokPos} (h : toksMatch [] tps) : tps = []
   | nil => rfl
   | cons x xs => exact absurd h (by simp [toksMatch])
 
+theorem toksMatch_length : ∀ {as : List ATok} {tps : List TokPos}, toksMatch as tps → tps.length = as.length
+  | [], [], _ => rfl
+  | [], _ :: _, h => absurd h (by simp [toksMatch])
+  | _ :: _, [], h => absurd h (by simp [toksMatch])
+  | _ :: as, (_, _) :: ts, h => by
+    have := toksMatch_length (as := as) (tps := ts) h.2
+    simp [this]
+
 theorem toksMatch_cons {a : ATok} {as : List ATok} {tps : List TokPos} (h : toksMatch (a :: as) tps) :
     ∃ t p ts, tps = (t, p) :: ts ∧ tokMatch a t ∧ toksMatch as ts := by
   cases tps with
@@ -75,5 +83,478 @@ theorem callArgs_ok (ns : List (List NPart)) (hok : ∀ n ∈ ns, NWordOK n) (in
         rw [hstep, h1]
         simp
       · simp only [List.map_cons, h2, Word.norm, normParts_eq, hnorm]
+
+
+/-! ## Layout trees: the token sequences of a tree
+
+  A layout tree is the norm tree annotated with the layout choices that matter to the parser:
+  which terminator a statement has (`;`, `&`, none) and where newline tokens are. -/
+
+inductive Term
+  | none | semi | amp
+deriving DecidableEq, Repr, Inhabited
+
+def Term.toks : Term → List ATok
+  | .none => []
+  | .semi => [.semi]
+  | .amp => [.amp]
+
+def nlT (b : Bool) : List ATok := if b then [.newl] else []
+
+def opA : BinOp → ATok
+  | .andStmt => .andAnd
+  | .orStmt => .orOr
+  | .pipe => .pipe
+
+mutual
+inductive LStmt
+  | mk (neg : Bool) (cmd : LCmd) (term : Term)
+inductive LCmd
+  | call (args : List (List NPart))
+  | subshell (nl : Bool) (ss : LStmts)
+  | block (nl : Bool) (ss : LStmts)
+  | binary (op : BinOp) (nl : Bool) (x y : LStmt)
+inductive LStmts
+  | one (s : LStmt) (nl : Bool)
+  | cons (s : LStmt) (nl : Bool) (rest : LStmts)
+end
+
+mutual
+def LStmt.toks : LStmt → List ATok
+  | .mk neg cmd term => (if neg then [.bang] else []) ++ (cmd.toks ++ term.toks)
+def LCmd.toks : LCmd → List ATok
+  | .call args => args.map .word
+  | .subshell nl ss => .lparen :: (nlT nl ++ (ss.toks ++ [.rparen]))
+  | .block nl ss => .lbrace :: (nlT nl ++ (ss.toks ++ [.rbrace]))
+  | .binary op nl x y => x.toks ++ (opA op :: (nlT nl ++ y.toks))
+def LStmts.toks : LStmts → List ATok
+  | .one s nl => s.toks ++ nlT nl
+  | .cons s nl rest => s.toks ++ (nlT nl ++ rest.toks)
+end
+
+mutual
+def LStmt.norm : LStmt → NStmt
+  | .mk neg cmd term => .mk neg (term == .amp) cmd.norm
+def LCmd.norm : LCmd → NCmd
+  | .call args => .call args
+  | .subshell _ ss => .subshell ss.norm
+  | .block _ ss => .block ss.norm
+  | .binary op _ x y => .binary op x.norm y.norm
+def LStmts.norm : LStmts → NStmts
+  | .one s _ => .cons s.norm .nil
+  | .cons s _ rest => .cons s.norm rest.norm
+end
+
+def LStmt.neg : LStmt → Bool
+  | .mk n _ _ => n
+def LStmt.cmd : LStmt → LCmd
+  | .mk _ c _ => c
+def LStmt.term : LStmt → Term
+  | .mk _ _ t => t
+
+def LCmd.isAndOr : LCmd → Bool
+  | .binary .andStmt _ _ _ => true
+  | .binary .orStmt _ _ _ => true
+  | _ => false
+
+def LCmd.isBinary : LCmd → Bool
+  | .binary _ _ _ _ => true
+  | _ => false
+
+def nwordOK (n : List NPart) : Bool :=
+  match n with
+  | [.lit v] => v != [123] && v != [125] && v != [33]
+  | _ => true
+
+def ncmdNameOK (n : List NPart) : Bool :=
+  match n with
+  | [.lit v] => !isOutsideKeyword v
+  | _ => true
+
+mutual
+/-- the last token of the statement is a word (then `}` may not follow directly) -/
+def LStmt.endsInWord : LStmt → Bool
+  | .mk _ cmd term => term == .none && cmd.endsInWord
+def LCmd.endsInWord : LCmd → Bool
+  | .call _ => true
+  | .subshell _ _ => false
+  | .block _ _ => false
+  | .binary _ _ _ y => y.endsInWord
+end
+
+/-- the list may be closed by `}`: its last statement is terminated, followed by a newline, or
+    does not end in a word -/
+def LStmts.closable : LStmts → Bool
+  | .one s nl => nl || !s.endsInWord
+  | .cons _ _ rest => rest.closable
+
+mutual
+def LStmt.valid : LStmt → Bool
+  | .mk neg cmd _ => cmd.valid && !(neg && cmd.isAndOr)
+def LCmd.valid : LCmd → Bool
+  | .call args =>
+    match args with
+    | [] => false
+    | n :: _ => args.all nwordOK && ncmdNameOK n
+  | .subshell _ ss => ss.valid
+  | .block _ ss => ss.valid && ss.closable
+  | .binary op _ x y =>
+    x.valid && y.valid && x.term == .none && y.term == .none &&
+    (match op with
+     | .pipe => !x.neg && !y.neg && !x.cmd.isAndOr && !y.cmd.isBinary
+     | _ => !y.cmd.isAndOr)
+def LStmts.valid : LStmts → Bool
+  | .one s _ => s.valid
+  | .cons s nl rest => s.valid && (nl || s.term != .none) && rest.valid
+end
+
+
+/-! ## Simple commands -/
+
+def Stmt.normOf (neg bg : Bool) (c : NCmd) : NStmt := .mk neg bg c
+
+theorem nwordOK_iff {n : List NPart} (h : nwordOK n = true) : NWordOK n := by
+  intro v hv
+  subst hv
+  simp only [nwordOK, Bool.and_eq_true, bne_iff_ne, ne_eq] at h
+  exact ⟨h.1.1, h.1.2, h.2⟩
+
+theorem mkStmt_norm (pos : Pos) (neg : Bool) (c : Cmd) : (mkStmt pos neg c).norm = .mk neg false c.norm := by
+  simp [mkStmt, Stmt.norm]
+
+theorem mkStmt_bare (pos : Pos) (neg : Bool) (c : Cmd) : (mkStmt pos neg c).bare = true := by
+  simp [mkStmt, Stmt.bare, Stmt.bg, Stmt.semi, Pos.valid, Pos.zero]
+
+/-- the follow condition: the continuation starts with a token at which a call stops -/
+def headStop (inSub : Bool) (k : List ATok) : Prop := ∃ a rest, k = a :: rest ∧ stopA inSub a = true
+
+theorem firstCmdF_call (args : List (List NPart)) (hv : (LCmd.call args).valid = true) (inSub : Bool) (pos : Pos)
+    (neg : Bool) (k : List ATok) (hk : headStop inSub k) (tps : List TokPos) (fuel : Nat)
+    (hf : fuel ≥ tps.length + 2) (hm : toksMatch (args.map ATok.word ++ k) tps) :
+    ∃ s tps', firstCmdF fuel inSub pos neg ⟨tps⟩ = .ok (some s, ⟨tps'⟩) ∧
+      s.norm = .mk neg false (.call args) ∧ s.bare = true ∧ toksMatch k tps' ∧ tps'.length < tps.length := by
+  cases args with
+  | nil => simp [LCmd.valid] at hv
+  | cons n ns =>
+    simp only [LCmd.valid, Bool.and_eq_true, List.all_eq_true] at hv
+    obtain ⟨hall, hname⟩ := hv
+    simp only [List.map_cons, List.cons_append] at hm
+    obtain ⟨t, p, ts, rfl, hma, hmr⟩ := toksMatch_cons hm
+    obtain ⟨w, lit, rfl, hnorm, hlit⟩ := hma
+    have hnsok : ∀ m ∈ ns, NWordOK m := fun m hm' => nwordOK_iff (hall m (by simp [hm']))
+    have hlen := toksMatch_length hmr
+    simp only [List.length_append, List.length_map] at hlen
+    cases fuel with
+    | zero => simp at hf
+    | succ f =>
+      obtain ⟨ws, tps', h1, h2, h3⟩ := callArgs_ok ns hnsok inSub k hk ts [w] (f + 1)
+        (by simp only [List.length_cons] at hf; omega) hmr
+      have hlen' := toksMatch_length h3
+      have hcall : firstCmdF (f + 1) inSub pos neg ⟨(Tok.word w lit, p) :: ts⟩ =
+          .ok (some (mkStmt pos neg (.call (w :: ws))), ⟨tps'⟩) := by
+        cases lit with
+        | none =>
+          simp only [firstCmdF, PS.tok, PS.next, List.tail_cons, h1]
+          simp
+        | some v =>
+          have hn : n = [.lit v] := hlit v rfl
+          obtain ⟨e1, e2, e3⟩ := nwordOK_iff (hall n (by simp)) v hn
+          have e4 : isOutsideKeyword v = false := by
+            subst hn
+            simpa [ncmdNameOK] using hname
+          simp only [firstCmdF, PS.tok, PS.next, List.tail_cons, h1, e4]
+          simp [e1, e2, e3]
+      refine ⟨_, tps', hcall, ?_, mkStmt_bare _ _ _, h3, ?_⟩
+      · rw [mkStmt_norm]
+        simp only [Cmd.norm, List.map_cons, h2, Word.norm, normParts_eq, hnorm]
+      · simp only [List.length_cons]
+        omega
+
+
+/-! ## The loops return when the next token is not theirs -/
+
+def pipeWrap (r : Except ParseErr (Stmt × PS)) : Except ParseErr (Option Stmt × PS) :=
+  match r with
+  | .error e => .error e
+  | .ok (s, ps) => .ok (some s, ps)
+
+def endWrap (readEnd : Bool) (r : Except ParseErr (Stmt × PS)) : Except ParseErr (Option Stmt × PS) :=
+  match r with
+  | .error e => .error e
+  | .ok (s, ps) =>
+    if readEnd then
+      match ps.tok with
+      | .semi => .ok (some (s.setEnd ps.pos false), ps.next)
+      | .amp => .ok (some (s.setEnd ps.pos true), ps.next)
+      | _ => .ok (some s, ps)
+    else .ok (some s, ps)
+
+theorem gotStmtPipeF_eq (fuel : Nat) (inSub : Bool) (pos : Pos) (neg binCmd : Bool) (ps : PS) :
+    gotStmtPipeF (fuel + 1) inSub pos neg binCmd ps =
+      match firstCmdF fuel inSub pos neg ps with
+      | .error e => .error e
+      | .ok (none, ps) => .ok (none, ps)
+      | .ok (some s, ps) => pipeWrap (pipeF fuel inSub binCmd s ps) := by
+  rw [gotStmtPipeF]
+  rfl
+
+/-- tokens that are not `|` -/
+def ATok.notPipe : ATok → Bool
+  | .pipe => false
+  | _ => true
+
+def ATok.notAndOr : ATok → Bool
+  | .andAnd | .orOr => false
+  | _ => true
+
+theorem tokMatch_pipe {a : ATok} {t : Tok} (h : tokMatch a t) : (t == Tok.pipe) = !a.notPipe := by
+  cases a <;> simp only [tokMatch] at h <;> (try subst h) <;> simp [ATok.notPipe]
+  all_goals (obtain ⟨w, rest⟩ := h; first | (obtain ⟨lit, rfl, _⟩ := rest; simp) | (subst rest; simp))
+
+theorem pipeF_stop (fuel : Nat) (inSub binCmd : Bool) (s : Stmt) (a : ATok) (t : Tok) (p : Pos) (ts : List TokPos)
+    (hm : tokMatch a t) (ha : a.notPipe = true) :
+    pipeF (fuel + 1) inSub binCmd s ⟨(t, p) :: ts⟩ = .ok (s, ⟨(t, p) :: ts⟩) := by
+  have := tokMatch_pipe hm
+  rw [ha] at this
+  rw [pipeF]
+  simp [PS.tok, this]
+
+theorem pipeF_binCmd (fuel : Nat) (inSub : Bool) (s : Stmt) (ps : PS) :
+    pipeF (fuel + 1) inSub true s ps = .ok (s, ps) := by
+  rw [pipeF]
+  split <;> simp
+
+theorem andOrF_stop (fuel : Nat) (inSub binCmd : Bool) (s : Stmt) (a : ATok) (t : Tok) (p : Pos) (ts : List TokPos)
+    (hm : tokMatch a t) (ha : a.notAndOr = true) :
+    andOrF (fuel + 1) inSub binCmd s ⟨(t, p) :: ts⟩ = .ok (s, ⟨(t, p) :: ts⟩) := by
+  rw [andOrF]
+  cases a <;> simp [ATok.notAndOr] at ha <;> simp only [tokMatch] at hm <;> (try subst hm) <;> simp [PS.tok]
+  all_goals (obtain ⟨w, rest⟩ := hm; first | (obtain ⟨lit, rfl, _⟩ := rest; simp) | (subst rest; simp))
+
+theorem andOrF_binCmd (fuel : Nat) (inSub : Bool) (s : Stmt) (ps : PS) :
+    andOrF (fuel + 1) inSub true s ps = .ok (s, ps) := by
+  rw [andOrF]
+  split <;> simp
+
+
+/-! ## Follow sets and first tokens -/
+
+/-- tokens that may follow a command: a stop token of the argument loop, or — after a command
+    that does not end in a word — the `}` closing the enclosing block -/
+def followTok (inSub ew : Bool) (a : ATok) : Bool := stopA inSub a || (!ew && a == .rbrace)
+
+def headFollow (inSub ew : Bool) (k : List ATok) : Prop :=
+  ∃ a rest, k = a :: rest ∧ followTok inSub ew a = true
+
+def headFollowNP (inSub ew : Bool) (k : List ATok) : Prop :=
+  ∃ a rest, k = a :: rest ∧ followTok inSub ew a = true ∧ a.notPipe = true
+
+/-- first token of a command: a word that is not reserved, `(` or `{` -/
+def startTok : ATok → Bool
+  | .word n => nwordOK n
+  | .lparen | .lbrace => true
+  | _ => false
+
+def LStmt.bodyToks : LStmt → List ATok
+  | .mk neg cmd _ => (if neg then [.bang] else []) ++ cmd.toks
+
+theorem LStmt.toks_eq (s : LStmt) : s.toks = s.bodyToks ++ s.term.toks := by
+  cases s with
+  | mk neg cmd term => simp [LStmt.toks, LStmt.bodyToks, LStmt.term]
+
+theorem LStmt.toks_none {s : LStmt} (h : s.term = .none) : s.toks = s.bodyToks := by
+  rw [LStmt.toks_eq, h]; simp [Term.toks]
+
+theorem LCmd.start : ∀ (c : LCmd), c.valid = true → c.isAndOr = false →
+    ∃ a rest, c.toks = a :: rest ∧ startTok a = true
+  | .call args, hv, _ => by
+    cases args with
+    | nil => simp [LCmd.valid] at hv
+    | cons n ns =>
+      simp only [LCmd.valid, Bool.and_eq_true, List.all_eq_true] at hv
+      exact ⟨.word n, ns.map .word, by simp [LCmd.toks], by simpa [startTok] using hv.1 n (by simp)⟩
+  | .subshell nl ss, _, _ => ⟨.lparen, nlT nl ++ (ss.toks ++ [.rparen]), by simp [LCmd.toks], rfl⟩
+  | .block nl ss, _, _ => ⟨.lbrace, nlT nl ++ (ss.toks ++ [.rbrace]), by simp [LCmd.toks], rfl⟩
+  | .binary op nl (.mk xn xc xt) y, hv, hao => by
+    cases op with
+    | andStmt => simp [LCmd.isAndOr] at hao
+    | orStmt => simp [LCmd.isAndOr] at hao
+    | pipe =>
+      simp only [LCmd.valid, LStmt.valid, LStmt.term, LStmt.neg, LStmt.cmd, Bool.and_eq_true, beq_iff_eq,
+        Bool.not_eq_true'] at hv
+      obtain ⟨⟨⟨⟨⟨hxc, _⟩, _⟩, hxt⟩, _⟩, ⟨⟨⟨hxn, _⟩, hxao⟩, _⟩⟩ := hv
+      subst hxt
+      subst hxn
+      obtain ⟨a, rest, h1, h2⟩ := LCmd.start xc hxc hxao
+      exact ⟨a, rest ++ (opA .pipe :: (nlT nl ++ y.toks)), by simp [LCmd.toks, LStmt.toks, Term.toks, h1], h2⟩
+
+/-- a token matching a start token is no stop token and not `!` -/
+theorem startTok_match {a : ATok} {t : Tok} (ha : startTok a = true) (hm : tokMatch a t) :
+    t.isStop = false ∧ t.isLit [33] = false ∧
+    (t == Tok.eof) = false ∧ (t == Tok.newl) = false ∧ (t == Tok.semi) = false ∧
+    t.isLit [125] = false ∧ (t == Tok.rparen) = false := by
+  cases a <;> simp [startTok] at ha <;> simp only [tokMatch] at hm
+  · -- word
+    obtain ⟨w, lit, rfl, _, hl⟩ := hm
+    cases lit with
+    | none => simp [Tok.isStop, Tok.isLit]
+    | some v =>
+      have := hl v rfl
+      subst this
+      simp only [nwordOK, Bool.and_eq_true, bne_iff_ne, ne_eq] at ha
+      simp [Tok.isStop, Tok.isLit, ha.1.2, ha.2]
+  · subst hm; simp [Tok.isStop, Tok.isLit]
+  · obtain ⟨w, rfl⟩ := hm; simp [Tok.isStop, Tok.isLit]
+
+/-! ## The claims proved by mutual induction over layout trees -/
+
+def posValid (tps : List TokPos) : Prop := ∀ tp ∈ tps, tp.2.valid = true
+
+/-- `firstCmdF` on a simple or compound command -/
+def ClaimF (c : LCmd) : Prop :=
+  ∀ (inSub : Bool) (pos : Pos) (neg : Bool) (k : List ATok) (tps : List TokPos) (fuel : Nat),
+    headFollow inSub c.endsInWord k → toksMatch (c.toks ++ k) tps → posValid tps → fuel ≥ 6 * tps.length + 3 →
+    ∃ s tps', firstCmdF fuel inSub pos neg ⟨tps⟩ = .ok (some s, ⟨tps'⟩) ∧ toksMatch k tps' ∧ posValid tps' ∧
+      s.norm = .mk neg false c.norm ∧ s.bare = true ∧ tps'.length < tps.length
+
+/-- `gotStmtPipeF` on a pipeline: the first command is parsed and the pipe loop goes on -/
+def ClaimC (c : LCmd) : Prop :=
+  ∀ (inSub : Bool) (pos : Pos) (neg : Bool) (k : List ATok) (tps : List TokPos) (fuel : Nat),
+    headFollow inSub c.endsInWord k → toksMatch (c.toks ++ k) tps → posValid tps → fuel ≥ 6 * tps.length + 4 →
+    ∃ s tps' fuel', gotStmtPipeF fuel inSub pos neg false ⟨tps⟩ = pipeWrap (pipeF fuel' inSub false s ⟨tps'⟩) ∧
+      toksMatch k tps' ∧ posValid tps' ∧ s.norm = .mk neg false c.norm ∧ s.bare = true ∧
+      fuel' ≥ 6 * tps'.length + 3 ∧ tps'.length < tps.length
+
+/-- `getStmtF` on the body of a statement (without its terminator): the first pipeline is parsed
+    and the and-or loop goes on -/
+def ClaimS (s : LStmt) : Prop :=
+  ∀ (inSub readEnd : Bool) (k : List ATok) (tps : List TokPos) (fuel : Nat),
+    headFollowNP inSub s.cmd.endsInWord k → toksMatch (s.bodyToks ++ k) tps → posValid tps →
+    fuel ≥ 6 * tps.length + 5 →
+    ∃ s' tps' fuel', getStmtF fuel inSub readEnd false ⟨tps⟩ = endWrap readEnd (andOrF fuel' inSub false s' ⟨tps'⟩) ∧
+      toksMatch k tps' ∧ posValid tps' ∧ s'.norm = .mk s.neg false s.cmd.norm ∧ s'.bare = true ∧
+      fuel' ≥ 6 * tps'.length + 4 ∧ tps'.length < tps.length
+
+/-- the same for an operand of `&&` / `||` (`binCmd = true`): the loop is not entered -/
+def ClaimY (s : LStmt) : Prop :=
+  s.cmd.isAndOr = false →
+  ∀ (inSub : Bool) (k : List ATok) (tps : List TokPos) (fuel : Nat),
+    headFollowNP inSub s.cmd.endsInWord k → toksMatch (s.bodyToks ++ k) tps → posValid tps →
+    fuel ≥ 6 * tps.length + 5 →
+    ∃ s' tps', getStmtF fuel inSub false true ⟨tps⟩ = .ok (some s', ⟨tps'⟩) ∧
+      toksMatch k tps' ∧ posValid tps' ∧ s'.norm = .mk s.neg false s.cmd.norm ∧ s'.bare = true ∧
+      tps'.length < tps.length
+
+def normList : List Stmt → NStmts
+  | [] => .nil
+  | s :: r => .cons s.norm (normList r)
+
+/-- what closes a statement list -/
+def closerOK (inSub stopBrace closable : Bool) (a : ATok) : Bool :=
+  a == .eof || (a == .rparen && inSub) || (a == .rbrace && stopBrace && closable)
+
+/-- `stmtsF` on a statement list up to its closing token -/
+def ClaimL (ss : LStmts) : Prop :=
+  ∀ (inSub stopBrace gotEnd nl0 : Bool) (a : ATok) (k : List ATok) (tps : List TokPos) (acc : List Stmt) (fuel : Nat),
+    (gotEnd = true ∨ nl0 = true) → closerOK inSub stopBrace ss.closable a = true →
+    toksMatch (nlT nl0 ++ (ss.toks ++ a :: k)) tps → posValid tps → fuel ≥ 6 * tps.length + 6 →
+    ∃ ss' tps', stmtsF fuel inSub stopBrace gotEnd ⟨tps⟩ acc = .ok (acc.reverse ++ ss', ⟨tps'⟩) ∧
+      toksMatch (a :: k) tps' ∧ posValid tps' ∧ normList ss' = ss.norm ∧ ss' ≠ [] ∧ tps'.length < tps.length
+
+
+/-! ## Glue lemmas -/
+
+theorem posValid_tail {tp : TokPos} {ts : List TokPos} (h : posValid (tp :: ts)) : posValid ts :=
+  fun x hx => h x (by simp [hx])
+
+theorem claimC_of_F {c : LCmd} (hF : ClaimF c) : ClaimC c := by
+  intro inSub pos neg k tps fuel hk hm hpv hf
+  cases fuel with
+  | zero => omega
+  | succ f =>
+    obtain ⟨s, tps', h1, h2, h3, h4, h5, h6⟩ := hF inSub pos neg k tps f hk hm hpv (by omega)
+    refine ⟨s, tps', f, ?_, h2, h3, h4, h5, by omega, h6⟩
+    rw [gotStmtPipeF_eq, h1]
+
+theorem getStmtF_eq (fuel : Nat) (inSub readEnd binCmd : Bool) (ps : PS) :
+    getStmtF (fuel + 1) inSub readEnd binCmd ps =
+      (let pos := ps.pos
+       let neg := ps.tok.isLit [33]
+       let ps := if neg then ps.next else ps
+       if neg && ps.tok.isStop then .error (.syntax "`!` cannot form a statement alone")
+       else if neg && ps.tok.isLit [33] then
+         .error (.syntax "cannot negate a command multiple times")
+       else
+         match gotStmtPipeF fuel inSub pos neg false ps with
+         | .error e => .error e
+         | .ok (none, ps) => .ok (none, ps)
+         | .ok (some s, ps) => endWrap readEnd (andOrF fuel inSub binCmd s ps)) := by
+  rw [getStmtF]
+  rfl
+
+/-- a statement whose command is a pipeline: `getStmtF` handles `!`, parses the pipeline and
+    enters the and-or loop -/
+theorem getStmtF_base (s : LStmt) (hv : s.valid = true) (hao : s.cmd.isAndOr = false) (hC : ClaimC s.cmd)
+    (inSub readEnd binCmd : Bool) (k : List ATok) (tps : List TokPos) (fuel : Nat)
+    (hk : headFollowNP inSub s.cmd.endsInWord k) (hm : toksMatch (s.bodyToks ++ k) tps) (hpv : posValid tps)
+    (hf : fuel ≥ 6 * tps.length + 5) :
+    ∃ s' tps' fuel', getStmtF fuel inSub readEnd binCmd ⟨tps⟩ = endWrap readEnd (andOrF fuel' inSub binCmd s' ⟨tps'⟩) ∧
+      toksMatch k tps' ∧ posValid tps' ∧ s'.norm = .mk s.neg false s.cmd.norm ∧ s'.bare = true ∧
+      fuel' ≥ 6 * tps'.length + 4 ∧ tps'.length < tps.length := by
+  obtain ⟨neg, cmd, term⟩ := s
+  simp only [LStmt.cmd, LStmt.neg] at *
+  have hcv : cmd.valid = true := by
+    simp only [LStmt.valid, Bool.and_eq_true] at hv
+    exact hv.1
+  obtain ⟨a0, rest0, hstart, hst⟩ := LCmd.start cmd hcv hao
+  obtain ⟨ak, restk, rfl, hfk, hnp⟩ := hk
+  have hkC : headFollow inSub cmd.endsInWord (ak :: restk) := ⟨ak, restk, rfl, hfk⟩
+  cases fuel with
+  | zero => omega
+  | succ f =>
+    cases neg with
+    | false =>
+      simp only [LStmt.bodyToks, Bool.false_eq_true, ↓reduceIte, List.nil_append] at hm
+      have hm' := hm
+      rw [hstart] at hm'
+      obtain ⟨t, p, ts, rfl, hma, _⟩ := toksMatch_cons hm'
+      obtain ⟨e1, e2, e3, e4, e5, e6, e7⟩ := startTok_match hst hma
+      obtain ⟨s1, tps1, f1, h1, h2, h3, h4, h5, h6, h7⟩ := hC inSub p false (ak :: restk) _ f hkC hm hpv (by omega)
+      obtain ⟨t1, p1, ts1, rfl, hmk, _⟩ := toksMatch_cons h2
+      have hp1 : pipeF f1 inSub false s1 ⟨(t1, p1) :: ts1⟩ = .ok (s1, ⟨(t1, p1) :: ts1⟩) := by
+        cases f1 with
+        | zero => omega
+        | succ g => exact pipeF_stop g inSub false s1 ak t1 p1 ts1 hmk hnp
+      refine ⟨s1, (t1, p1) :: ts1, f, ?_, h2, h3, h4, h5, by omega, h7⟩
+      rw [getStmtF_eq]
+      simp only [PS.tok, e2, Bool.false_eq_true, ↓reduceIte, Bool.false_and, PS.pos]
+      rw [h1, hp1]
+      rfl
+    | true =>
+      simp only [LStmt.bodyToks, ↓reduceIte, List.cons_append] at hm
+      obtain ⟨tb, pb, tsb, rfl, hmb, hmrest⟩ := toksMatch_cons hm
+      obtain ⟨wb, rfl⟩ := hmb
+      have hm' := hmrest
+      rw [hstart] at hm'
+      obtain ⟨t, p, ts, rfl, hma, _⟩ := toksMatch_cons hm'
+      obtain ⟨e1, e2, e3, e4, e5, e6, e7⟩ := startTok_match hst hma
+      obtain ⟨s1, tps1, f1, h1, h2, h3, h4, h5, h6, h7⟩ := hC inSub pb true (ak :: restk) _ f hkC hmrest
+        (posValid_tail hpv) (by simp only [List.length_cons] at hf ⊢; omega)
+      obtain ⟨t1, p1, ts1, rfl, hmk, _⟩ := toksMatch_cons h2
+      have hp1 : pipeF f1 inSub false s1 ⟨(t1, p1) :: ts1⟩ = .ok (s1, ⟨(t1, p1) :: ts1⟩) := by
+        cases f1 with
+        | zero => omega
+        | succ g => exact pipeF_stop g inSub false s1 ak t1 p1 ts1 hmk hnp
+      refine ⟨s1, (t1, p1) :: ts1, f, ?_, h2, h3, h4, h5, ?_, ?_⟩
+      · rw [getStmtF_eq]
+        simp only [PS.tok, PS.pos, PS.next, List.tail_cons, Tok.isLit, beq_self_eq_true, ↓reduceIte, Bool.true_and,
+          e1, Bool.false_eq_true]
+        have e2' := e2
+        simp only [Tok.isLit] at e2'
+        simp only [e2', Bool.false_eq_true, ↓reduceIte]
+        rw [h1, hp1]
+        rfl
+      · simp only [List.length_cons] at hf h7 ⊢; omega
+      · simp only [List.length_cons] at h7 ⊢; omega
 
 end ShVerif.L4
